@@ -4,12 +4,13 @@
 # `replace` directive) with the hooks enabled, then runs it.
 set -u
 ID="${1:?usage: vcheck.sh <ID> quick|thorough}"; TIER="${2:-quick}"; shift; shift || true
-cd /verif || exit 2
+ROOT="${VERIF_ROOT:-/verif}"
+cd "$ROOT" || exit 2
 export GOFLAGS=-mod=mod GOPROXY=off GOSUMDB=off GOTOOLCHAIN=local
 export VERIF_TIER="$TIER"
 id=$(echo "$ID" | tr 'A-Z' 'a-z')
-BIN=/verif/.work/bin
-mkdir -p "$BIN" /verif/evidence /verif/replays
+BIN=$ROOT/.work/bin
+mkdir -p "$BIN" $ROOT/evidence $ROOT/replays
 TAGS=verif
 RACE=""
 case "$ID" in
@@ -38,9 +39,9 @@ if [ $rc -ne 0 ] && [ $rc -ne 1 ]; then
   # process down before the monitor can speak. That is a violation of the property under test (and of
   # C10/C16 in any case), not a harness failure — provided the first non-runtime frame of the crashing goroutine is in the
   # library (tools/crash_owner.py); a crash in the check's own code stays an abnormal end (rc=2).
-  if [ $rc -eq 2 ] && python3 /verif/tools/crash_owner.py "$LOG" >/dev/null; then
-    mkdir -p "/verif/replays/$ID"
-    R="/verif/replays/$ID/$TIER-process-crash-seed${VERIF_SEED:-1}.txt"
+  if [ $rc -eq 2 ] && python3 $ROOT/tools/crash_owner.py "$LOG" >/dev/null; then
+    mkdir -p "$ROOT/replays/$ID"
+    R="$ROOT/replays/$ID/$TIER-process-crash-seed${VERIF_SEED:-1}.txt"
     { echo "check process of $ID died (rc=$rc); crash report and the 100 lines before it:"; grep -a -B100 -A80 -m1 -E '^(panic: |fatal error: )' "$LOG"; } > "$R"
     echo "[$ID] violation sub=process-crash: $(grep -a -m1 -E '^(panic: |fatal error: )' "$LOG" | cut -c1-200)"
     echo "VIOLATION property=$ID replay=$R"
